@@ -30,6 +30,15 @@ func genReadsCase(r *rand.Rand, cfg Cfg) Case {
 			}
 		}
 		k := pick(r, uni)
+		if r.Intn(6) == 0 {
+			// a cursor on the current version: every move with the names it reads
+			// (placement first: a cursor that has run off an end stays there)
+			ops = append(ops, "cur 0 0", pick(r, []string{fmt.Sprintf("cl cceil 0 %d", k), "cl cmin 0", "cl cmax 0"}))
+			for j := 0; j < 1+r.Intn(8); j++ {
+				ops = append(ops, "cl "+pick(r, []string{"cfwd", "cfwd", "cbwd"})+" 0")
+			}
+			continue
+		}
 		if r.Intn(5) == 0 {
 			mv := ""
 			for j := 0; j < 1+r.Intn(8); j++ {
@@ -60,7 +69,7 @@ func genReadsCase(r *rand.Rand, cfg Cfg) Case {
 }
 
 func famReads(f *FamCtx) {
-	f.Report.Rule = "persisted trees on a recording store without cache; LoadMast / Clone / Get / Insert (new, update, equal) / Delete (hit, miss, wrong value) on keys present and absent of every layer, from fully persisted and from partly modified trees; cursor walks (Cursor, Ceil, Forward, Backward) with at most one read per level and call; the multiset of names passed to Persist.Load by each call is compared with the model's load trace and with C16's bounds; non-trivial = reached height >= 1 and changed height"
+	f.Report.Rule = "persisted trees on a recording store without cache; LoadMast / Clone / Get / Insert (new, update, equal) / Delete (hit, miss, wrong value) on keys present and absent of every layer, from fully persisted and from partly modified trees; cursor moves (Ceil, Min, Max, Forward, Backward) with the names each one reads compared with the model (`newLoads`) and at most one read per level and call; the multiset of names passed to Persist.Load by each call is compared with the model's load trace and with C16's bounds; non-trivial = reached height >= 1 and changed height"
 	f.Gen = func() Case { return genReadsCase(f.Rand, RandCfg(f.Rand)) }
 	n := f.N(250, 10000)
 	for i := 0; i < n; i++ {
